@@ -229,6 +229,27 @@ impl InitSuite {
                 self.step(&v)
             }
             "iexpect" => Some("ok".to_string()),
+            "isign" => {
+                // isign <key index> <salt: 4 bytes hex> <parts hex>: a handshake datagram with arbitrary TLV content, genuinely signed with key <i>
+                // (marker 0xff, salt, salted key hash, the given parts — they should end with the end marker 00 —, signature length, signature)
+                let ki: usize = t.get(1)?.parse().ok()?;
+                let salt = unhex(t.get(2)?)?;
+                let parts = if *t.get(3)? == "-" { vec![] } else { unhex(t.get(3)?)? };
+                let (pk, kp) = self.keys.get(ki)?;
+                let mut data = pk.clone();
+                data.extend_from_slice(&salt);
+                let h = ring::digest::digest(&ring::digest::SHA256, &data);
+                let mut body = salt.clone();
+                body.extend_from_slice(&h.as_ref()[..4]);
+                body.extend_from_slice(&parts);
+                let sig = kp.sign(&body);
+                let mut msg = vec![0xff];
+                msg.extend_from_slice(&body);
+                msg.push(sig.as_ref().len() as u8);
+                msg.extend_from_slice(sig.as_ref());
+                self.cur_att = format!("signer{}", ki);
+                Some(format!("ok {}", self.emit(&msg)))
+            }
             "iinit" | "ideliver" | "itick" | "isend" => {
                 self.cur_att = if t[0] == "ideliver" { t.get(2)?.to_string() } else { t.get(1)?.to_string() };
                 let (res, att) = match t[0] {
